@@ -1,3 +1,4 @@
+import MevCommit.Model.Wiring
 import MevCommit.Model.Registry
 import MevCommit.Spec.C11
 import MevCommit.Lemmas.BE
@@ -83,3 +84,31 @@ theorem C11_request_exact (e : StakeEnv) :
 
 example : (check (.bytes (toBE 32 5)) (.bytes (toBE 32 (2^256 - 1)))).answer = true := by
   rw [C11_check_values 5 (2^256-1) (by decide) (by omega)]; decide
+
+/-! ### Whole-node wiring (pkg/node.NewNode), tied by the `nodewire` harness -/
+section Wiring
+open MevCommit.Wiring
+
+/-- as NewNode wires the node, stake is read at the configured provider registry and allowance at
+the configured bidder registry, and the stake / prepay operations pay those same contracts -/
+theorem C11_wire_reads_and_ops_at_configured (wd : World) :
+    (scenario nodeWire wd).stakeReadsAt = [Target.providerRegistry] ∧
+    (∀ t ∈ (scenario nodeWire wd).allowReadsAt, t = Target.bidderRegistry) ∧
+    nodeWire.stakeOp = Target.providerRegistry ∧ nodeWire.prepayOp = Target.bidderRegistry := by
+  refine ⟨rfl, ?_, rfl, rfl⟩
+  cases wd with
+  | mk s a => cases s <;> cases a <;> decide
+
+/-- fail closed at the level of the whole node: a node whose stake or allowance reads were wired
+to any other contract never produces a commitment, whatever the chain holds -/
+theorem C11_wire_miswired_reads_fail_closed (w : Wire) (wd : World)
+    (h : w.handshakeStake ≠ Target.providerRegistry ∨ w.bidAllowance ≠ Target.bidderRegistry) :
+    (scenario w wd).commitments = 0 ∧ (scenario w wd).commitTxsAt = [] := by
+  rcases h with h | h <;> simp [scenario, stakeCheck, allowanceCheck, h]
+
+/-- non-vacuity: the four worlds under the real wiring -/
+example : (scenario nodeWire ⟨true, true⟩).commitments = 1 ∧ (scenario nodeWire ⟨true, false⟩).commitments = 0 ∧
+    (scenario nodeWire ⟨false, true⟩).allowReadsAt = [] ∧ (scenario nodeWire ⟨true, false⟩).allowReadsAt = [Target.bidderRegistry] := by
+  decide
+
+end Wiring
